@@ -66,16 +66,12 @@ Proof. intros [ls H]. exact (stream_prefix fsm_cfg ls s i x H). Qed.
 
 Lemma stream_closed_machine s i x :
   mreach s -> nth_error (subs s) i = Some x -> gotclosed x = true ->
-  cancelled x = true /\ sg x = SLive /\
-  (dropped x = false ->
-   exists rest, expected_stream (hist s) (reg_at x) (read_at x) (endp (length (hist s)) x) = got x ++ rest) /\
-  (hand x = None ->
-   unsub x = true /\
-   (dropped x = false -> got x = expected_stream (hist s) (reg_at x) (read_at x) (unsub_at x))).
+  cancelled x = true /\ unsub x = true /\
+  (dropped x = false -> got x = expected_stream (hist s) (reg_at x) (read_at x) (unsub_at x)).
 Proof. intros [ls H]. exact (stream_closed fsm_cfg ls s i x H). Qed.
 
-(* while the wrapped channel is open (in particular while the context is live) nothing is lost:
-   everything the subscriber is owed has been received or is in flight, in order *)
+(* while nothing was dropped for this subscriber, nothing is lost: everything it is owed has been
+   received or is in flight, in order *)
 Lemma stream_in_flight_machine s i x :
   mreach s -> nth_error (subs s) i = Some x -> dropped x = false -> sg x = SLive ->
   got x ++ wch x ++ olist (hand x) ++ bch x ++ (if memn i (pend s) then [cur s] else []) =
